@@ -499,7 +499,7 @@ def run_routes(ctx, exe, prog, routes, tp):
     return res
 
 
-def judge_routes(prog, res):
+def judge_routes(prog, res, force_ref=None):
     """None if all logs agree, else (sig, message, route, ref)"""
     live = [r for r in res if not (res[r][1][:1] == ["ROUTE-SKIPPED uring"])]
     for r in live:
@@ -518,6 +518,8 @@ def judge_routes(prog, res):
     if len(counts) == 1:
         return None
     ref_routes = max(counts.values(), key=lambda v: (len(v), "posix" in v))
+    if force_ref is not None:
+        ref_routes = next(v for v in counts.values() if force_ref in v)
     ref = "posix" if "posix" in ref_routes else ref_routes[0]
     odd = next(r for r in live if r not in ref_routes)
     a, b = res[odd][1], res[ref][1]
@@ -536,7 +538,7 @@ def shrink_prog(ctx, exe, prog, sig, odd, ref, tp):
     """delta debugging over ops, keeping the same signature"""
     routes = [odd] + ([ref] if ref else [])
     def fails(p):
-        j = judge_routes(p, run_routes(ctx, exe, p, routes, tp))
+        j = judge_routes(p, run_routes(ctx, exe, p, routes, tp), ref)
         return j is not None and j[0] == sig
     cur = list(prog)
     n = 2
@@ -602,6 +604,18 @@ CORPUS_ROUTES = [
 ]
 
 
+def load_corpus():
+    """corpus/C11/*.fsbuf (first line `iovmax N`) and *.prog (route programs) run first, every time"""
+    unit, progs = [], []
+    d = VERIF / "corpus" / "C11"
+    for f in sorted(d.glob("*.fsbuf")):
+        ls = [l for l in f.read_text().splitlines() if l.strip()]
+        unit.append((int(ls[0].split()[1]), ls[1:]))
+    for f in sorted(d.glob("*.prog")):
+        progs.append([l for l in f.read_text().splitlines() if l.strip()])
+    return unit, progs
+
+
 # ============================================================================ run
 def run(ctx):
     ctx.trusted += ["scripted-syscall shim of harness/c11_fsbuf.c (read/write/…/dlsym redirected inside fs.c by macros)",
@@ -628,14 +642,14 @@ def run(ctx):
     rng = ctx.rng
     ok = True
     if uexe:
-        ok = run_unit(ctx, uexe, CORPUS_UNIT, "corpus")
+        ok = run_unit(ctx, uexe, load_corpus()[0] + CORPUS_UNIT, "corpus")
         if ok:
             ok = run_unit(ctx, uexe, unit_batches(rng, ctx.scale(2400, 60000)), "generated")
         ctx.sample({"fsbuf": gen_write_case(SplitMix(ctx.seed), 4)})
     if rexe:
         t0 = time.time()
         budget = ctx.scale(28, 600)
-        progs = [(p, 4) for p in CORPUS_ROUTES]
+        progs = [(p, 4) for p in load_corpus()[1] + CORPUS_ROUTES]
         n = 0
         while ok:
             if progs:
